@@ -288,6 +288,25 @@ def run(ctx):
             free = reach_avoiding(f, [0], wi | bs, set())
             ctx.check(db not in free or db in bs, "SIBLING", "C13:SIBLING:dash-emitter:%s:indent-or-line-state" % nm, "the marker is preceded by write_indent unless a line-state flag says the line continues",
                       "%s can write `- ` at a line start without calling write_indent and without consulting a line-state flag (e.g. because depth == 0): the `%%YAML` prologue, which write_indent emits first, then lands in the middle of the document" % f.npath, config, ctx.where(f, db))
+        # ... and whoever stages the hints for its elements clears them when the collection is finished (SeqSer::end does):
+        # a hint that survives the collection is consumed by the next sibling value (`b: k: 3`)
+        for f, db in dash_fns:
+            if not f.npath.startswith("<"):
+                continue
+            endf = fx.fn_opt(f.npath.rsplit("::", 1)[0] + "::end")
+            if endf is None:
+                continue
+            ctx.saw(endf)
+            cleared = {}
+            for b, i, s_ in endf.stmts():
+                if s_["k"] == "assign" and s_["p"]["pr"]:
+                    fld = ser_field(endf, s_["p"])
+                    v = endf.sym_rvalue(s_["rv"])
+                    if fld in ("pending_inline_map", "after_dash_depth") and ((v[0] == "const" and v[1] is False) or (v[0] == "aggr" and v[2] == "None")):
+                        cleared[fld] = True
+            nm = f.npath.split(" as ")[0].strip("<").split("::")[-1]
+            ctx.check({"pending_inline_map", "after_dash_depth"} <= set(cleared), "SIBLING", "C13:SIBLING:dash-emitter:%s:end-clears-hints" % nm, "`end` clears the hints its elements staged",
+                      "%s::end leaves `%s` staged after the last element: the next sibling value consumes them and is laid out as if it followed a dash" % (nm, sorted({"pending_inline_map", "after_dash_depth"} - set(cleared))), config, ctx.where(endf))
         ts = fx.fn("<&mut ser::YamlSerializer as serde::Serializer>::serialize_tuple_struct")
         ctx.saw(ts)
         ctx.check(any(fx.callee(t).endswith("::serialize_seq") for b, t in ts.calls()), "SIBLING", "C13:SIBLING:tuple-struct-delegates", "ordinary tuple structs are laid out by serialize_seq",
